@@ -73,6 +73,9 @@ type Sim struct {
 	quiescents   int
 	reloadsOK    int
 	reloadsRej   int
+	cache        *stepCache
+	graveyard    map[string]*QSpec
+	lastReload   reloadResult
 }
 
 func (s *Sim) probe(name string) { s.probes[name]++ }
